@@ -54,11 +54,14 @@ class C11(Prop):
                   "of one frame whose rest is parked in wbuf (C11_stream_integrity), so the Spec decoder never sees a torn, interleaved or duplicated frame "
                   "(C11_frame_roundtrip[_torn_tail]); the frames are a subsequence of (metadata known at accept, in map order) ++ (metric frames fanned out since), "
                   "all of them if drop-oldest never fired (C11_prefix_metadata_then_metrics_in_order); client_count = |clients| and should_send = (|clients| > 0) "
-                  "(C11_client_count_exact); start-up reaches the loop for every limit (C11_starts_for_every_limit). The four defects are refuted on the pre-fix "
+                  "(C11_client_count_exact); start-up reaches the loop for every limit (C11_starts_for_every_limit); the Spec decoder inverts the modelled prost encoding of Metadata and Metric events for all names, "
+                  "label lists, timestamps, operations and values (C11_fields/metadata/metric_roundtrip: name, labels, operation kind and value intact); a stream of the proved shape passes the boolean "
+                  "stream check (C11_stream_log_ok_reflect). The five defects are refuted on the pre-fix "
                   "settings of the model (C11_*_refuted_before_fix). Trace validation ties the model to /repo: every run replays the hook log of real exporters "
                   "on real sockets through the model and compares per-client byte streams and boundary counters; spec_ok is evaluated on the streams the clients read.")
-    level_note = ("Partial: C11_spec_ok_on_model_partial proves only the start-up and counter clauses of spec_ok for the model's own output; the stream clauses are proved "
-                  "at the Prop level (C11_stream_integrity, C11_prefix_...) but not connected to the boolean stream_ok, and the end-to-end clause (every emission delivered, "
+    level_note = ("Partial: C11_spec_ok_on_model_partial proves the start-up and counter clauses of spec_ok for the model's own output; the stream clause is proved at the Prop level "
+                  "(C11_stream_integrity, C11_prefix_...) and its boolean form by reflection from that shape (C11_stream_log_ok_reflect), but the bookkeeping that instantiates the reflection "
+                  "lemma with the model's own run (model metadata map = the spec's log view up to permutation; streams of removed clients) is not done; the end-to-end clause (every emission delivered, "
                   "name/labels/operation intact, per-thread order) is checked on every run against the harness's emission list, not proved: it depends on the channel, "
                   "the should_send gate seen from other threads and prost's Metric encoding, none of which is modelled. `overflowed` is a ghost flag set where drop-oldest "
                   "discards (to_drain > 0). Trusted: Coq kernel; hand-written model; cfg(metrics_verif) hooks (event log, socket wrapper that scripts some write results).")
@@ -66,11 +69,11 @@ class C11(Prop):
         "mio readiness, kernel socket buffers and the crossbeam channel are the runtime's (exercised, not modelled); the harness paces emissions so that at most buffer_size channel messages are in flight",
         "EINTR and part of the EAGAIN / short-write results of conn.write are injected by the cfg(metrics_verif) socket wrapper (a non-blocking loopback socket does not return EINTR on Linux); the rest come from the kernel",
         "HashMap iteration order is abstracted: per-client steps of one fan-out touch disjoint state, the write-result oracle is given per client token; the metadata order at an accept is an input",
-        "label keys of one metric are distinct (the wire format is a map); a metric name is re-described only with the same type; f64 values in the cases are integers below 2^53 and compared as bit patterns",
-        "buffer_size >= 1 in the cases (Some(0) makes a rendezvous channel on which try_send never succeeds)",
+        "label keys of one metric are distinct in the generated cases (the model does collect them into an ordered map; the harness's expectation does not); a metric name re-described with another type keeps its first type (what the code does; modelled and expected as such); f64 values in the cases are integers below 2^53 and compared as bit patterns",
+        "timestamps are inputs of the model (taken from the logged frame); seconds and nanos are non-negative",
     ]
     trusted_extra = [
-        "prost encoding of Metric messages is observed (frames are logged by content), only decoded by the Spec decoder; prost encoding of Metadata messages is modelled (enc_meta) and compared byte for byte",
+        "prost encoding of Metadata and Metric messages is modelled (enc_meta, enc_metric from the inputs logged before encoding) and compared byte for byte with what the exporter produced on every run",
         "std/mio TCP, epoll, crossbeam-channel (exercised)",
     ]
 
